@@ -28,7 +28,9 @@ async def main():
     if not slow.done(): slow.set_result(1)
     try:
         await asyncio.wait_for(t, 1.0)
-        print("finished")
+        print("finished: OK")
+        return False
     except asyncio.TimeoutError:
-        print("HANG: payload stream never finishes")
-asyncio.run(main())
+        print("VIOLATION (HANG): payload stream never finishes")
+        return True
+raise SystemExit(1 if asyncio.run(main()) else 0)
